@@ -66,7 +66,8 @@ def get_bright_bc(mask, image, image_bg, bg_off=None, ret_data="avg,sd"):
     for ii in range(length):
         # cast to integer before subtraction
         imgi = np.array(image[ii], dtype=int) - image_bg[ii]
-        mski = mask[ii]
+        # boolean indexing also for masks stored as 0/1 or 0/255 integers
+        mski = np.asarray(mask[ii], dtype=bool)
         # Assign results
         if ret_avg:
             avg[ii] = np.mean(imgi[mski])
